@@ -146,6 +146,10 @@ def corpus_for(cfg):
             ds = [d for d in ds if d != "Error"]
         if not ds:
             continue
+        # helper attributes in the item must belong to the derives that are finally kept
+        final_attrs = set(a for d in ds for a in attrs_of.get(d, ())) | {"repr", "allow", "deprecated", "inline"}
+        if not used <= final_attrs:
+            continue
         out.append(items_mod.Item(ds, it.src, it.dims))
     _corpus[key] = out
     return out
